@@ -212,7 +212,7 @@ def run(db, rep, tier):
             continue
         seen.add(site)
         rep.fail(rule, site, where, expected, found, function)
-    rep.floor('B.alias', nexpr, 1500)
+    rep.floor('B.alias', nexpr, 1000)
     rep.sample('B.alias', 'e.g. v = iCommutator(v,b) with v owned: evaluated through a temporary, result equals the naive value; v -= a.Evolve(b,t) with v external of another size: throws, v untouched')
     check_single_assignment(db, rep, tier)
     check_traits(db, rep)
